@@ -284,10 +284,11 @@ def guard_predicates(ck, m, prefix):
     # has_permission: found as the bool-returning callee of the dbname_perm guard taking PermissionKind
     pb, pspec = m.guard_of_kind('dbname_perm')
     hp = None
-    for bi, t in pb.calls():
-        cb = m.prog.bodies.get(callee(t))
-        if cb is not None and cb.locals[0] == 'bool' and any('PermissionKind' in x for x in cb.locals[1:cb.argc + 1]):
-            hp = cb
+    for ub_ in [pb] + [b_ for b_ in m.prog.user_bodies() if b_.parent == pb.id]:
+        for bi, t in ub_.calls():
+            cb = m.prog.bodies.get(callee(t))
+            if cb is not None and cb.locals[0] == 'bool' and any('PermissionKind' in x for x in cb.locals[1:cb.argc + 1]):
+                hp = cb
     if hp is None:
         ck.undecided('C08.b', short(pb.id), 'permission-check', 'no bool permission check called by the permission guard')
         return
